@@ -358,6 +358,35 @@ def rule_nul(X, R, rule="R20-nul"):
                 a0, b0 = len_let(fl.get("start")), len_let(fl.get("end"))
                 rng_ok = bool(ext and a0 and b0) and a0[0] < ext[0] < b0[0] and \
                     chain_verdict([{"m": m_} for m_ in ms if not m_.startswith(".")], terminal_ok=("for_each",)) == "ok"
+    # the same guarantee obtained while copying: `self.0.extend(buf.iter().map(|&b| if b == 0 { SUBSTITUTE } else { b }))` -
+    # every appended byte goes through a closure that answers the substitute for NUL and the byte itself otherwise
+    if not rep:
+        for x in S.sites():
+            c_ = x.node
+            if not (c_.get("k") == "MethodCall" and c_["m"] in ("extend", "extend_from_slice") and c_.get("args") and
+                    sem.param_index(S, c_["recv"], x.frame, through_mut=True) == 0):
+                continue
+            root_, ch_ = chain(c_["args"][0])
+            maps = [m_ for m_ in ch_ if m_["m"] == "map" and m_.get("args") and closure_of(m_["args"][0])]
+            if len(maps) != 1 or sem.param_index(S, root_, x.frame) != 1 or \
+                    chain_verdict([m_ for m_ in ch_], terminal_ok=()) != "ok":
+                continue
+            clo_ = closure_of(maps[0]["args"][0])
+            leaves_ = S.closure_leaves(clo_)
+            subs = [l_ for l_ in leaves_ if (def_path(l_.node) or "").endswith("SUBSTITUTE_BYTE")]
+            keeps = [l_ for l_ in leaves_ if l_ not in subs]
+
+            def zero_pol(l_):
+                for op, l, r, fr, certain in sem.weak_cmps(l_.pc):
+                    if certain and op in ("Eq", "Ne") and 0 in (lit_value(l), lit_value(r)):
+                        return op == "Eq"
+                return None
+            pb_ = [q for q in walk({"k": "x", "params": clo_["params"]}) if q.get("k") == "PBinding"]
+            same_byte = all(sem.peel(l_.node).get("k") == "Path" and pb_ and S.lookup(sem.peel(l_.node), l_.frame) is l_.frame.binds.get(pb_[0]["id"])
+                            for l_ in keeps)
+            if len(subs) == 1 and len(keeps) == 1 and zero_pol(subs[0]) is True and zero_pol(keeps[0]) is False and same_byte:
+                rep = True
+                rng_ok = True      # nothing else is appended: the substituted bytes are exactly the appended ones
     R.check(rep, rule, fn, "every NUL byte of the appended range is replaced by the substitute byte", where=h["span"])
     R.check(rng_ok, rule, fn, "the replaced range is exactly the appended bytes [len..new_len]", where=h["span"])
     # terminator pushed last
@@ -369,7 +398,9 @@ def rule_nul(X, R, rule="R20-nul"):
     R.check(ok, rule, fn, "the string is NUL-terminated as the last step", where=h["span"])
     # len measured after removing the old terminator and before extending
     order = [m for m in names if m in ("pop", "len", "extend", "extend_from_slice", "push")]
-    R.check(order[:1] == ["pop"] and order.index("len") < (order.index("extend") if "extend" in order else order.index("extend_from_slice")),
+    ext_at = order.index("extend") if "extend" in order else (order.index("extend_from_slice") if "extend_from_slice" in order else None)
+    # (when the bytes are substituted while they are copied there is no start offset to take)
+    R.check(order[:1] == ["pop"] and ext_at is not None and ("len" not in order or order.index("len") < ext_at),
             rule, fn, "old terminator removed first; start offset taken before extending", str(order), h["span"])
     # the two Write impls append
     for w in ("<cstring::CString as std::io::Write>::write", "<cstring::CString as core::fmt::Write>::write_str"):
